@@ -1002,8 +1002,8 @@ Definition toy_oracle : oracles :=
 Lemma un_parse_un : forall z, un_parse (un z) = Some z.
 Proof.
   intros z. unfold un, un_parse. destruct (z <? 0)%Z eqn:E.
-  - apply Z.ltb_lt in E. simpl. rewrite repeat_length. f_equal. lia.
-  - apply Z.ltb_ge in E. simpl. rewrite repeat_length. f_equal. lia.
+  - apply Z.ltb_lt in E. simpl. rewrite repeat_length. f_equal. rewrite Nat2Z.inj_succ, Zabs2Nat.id_abs. lia.
+  - apply Z.ltb_ge in E. simpl. rewrite repeat_length. f_equal. rewrite !Nat2Z.inj_succ, Zabs2Nat.id_abs. lia.
 Qed.
 
 Lemma forallb_repeat : forall (p : N -> bool) c n, p c = true -> forallb p (repeat c n) = true.
